@@ -479,6 +479,7 @@ def apply(st, op):
     if o == 'mkfile':
         path = w.path(op['name'])
         _write(op['kind'], op['spec'], path)
+        seams.stamp_file(path)
         st.files[op['fid']] = {'kind': op['kind'], 'path': path,
                                'variant': op['variant'], 'name': op['name']}
     elif o == 'hopen':
@@ -523,6 +524,7 @@ def apply(st, op):
         if op['how'] == 'recreate':
             os.unlink(f['path'])
         _write(op['kind'], op['spec'], f['path'])
+        seams.stamp_file(f['path'])      # often the same simulated second as before
         suffix = f['name'].split('.', 1)[1] if '.' in f['name'] else None
         f['kind'] = op['kind']
         f['variant'] = 'none' if suffix is None else (
